@@ -22,7 +22,12 @@ import (
 const simPause = 100 * time.Microsecond
 const pollPause = simPause
 const simTick = 5 * time.Millisecond
-const liveBound = 30 * time.Second
+const liveBound = 10 * time.Second
+
+// schedLiveBound: the SCHED engine has no process durations, so simulated time only passes in the
+// polling loop; "bounded time" there means some hundreds of polling passes at the simulator's pause
+// plus coarse steps that also cover a loop that does not honour the pause override.
+const schedLiveBound = 2500 * time.Millisecond
 
 var statusNames = []string{MWaiting, "running", MSkipped, MDone, MError, MCanceled}
 
@@ -374,13 +379,13 @@ func (e *schedEngine) barrier() bool {
 			}
 			return true
 		}
-		if e.returned || c.Now()-start > liveBound {
-			c.Violate("C04", "eligible-not-started", "eligible stage(s) %v not started within %s simulated while in flight: %v", miss, liveBound, e.inflightNames())
+		if e.returned || c.Now()-start > schedLiveBound {
+			c.Violate("C04", "eligible-not-started", "eligible stage(s) %v not started within %s simulated (>= 20000 polling passes) while in flight: %v", miss, schedLiveBound, e.inflightNames())
 			return false
 		}
 		e.settle()
-		if c.Now()-start > time.Second {
-			c.Advance(time.Second) // a scheduler that does not honour the simulator's pause: coarser steps
+		if c.Now()-start > 50*time.Millisecond {
+			c.Advance(50 * time.Millisecond) // a scheduler that does not honour the simulator's pause: coarser steps
 		}
 	}
 }
@@ -426,6 +431,7 @@ func RunSchedWorld(c *Ctl, prof *SchedProfile, g *GraphSpec, res *RunResult) {
 	scheduler.VerifPause = simPause
 	defer func() { scheduler.VerifPause = 0 }()
 	sd := scheduler.NewScheduler(stub)
+	c.atAbort = append(c.atAbort, sd.Cancel)
 	go func() {
 		err := sd.Schedule(real)
 		d := "nil"
@@ -480,8 +486,8 @@ func RunSchedWorld(c *Ctl, prof *SchedProfile, g *GraphSpec, res *RunResult) {
 			}
 		}
 		if len(parks) == 0 {
-			if idle > liveBound {
-				c.Violate("C03", "no-return", "Schedule did not return within %s simulated after the last completion; statuses: %s", liveBound, e.statusDump())
+			if idle > schedLiveBound {
+				c.Violate("C03", "no-return", "Schedule did not return within %s simulated (>= 20000 polling passes) after the last completion; statuses: %s", schedLiveBound, e.statusDump())
 				break
 			}
 			// optionally fire a fault while nothing is in flight
@@ -491,8 +497,8 @@ func RunSchedWorld(c *Ctl, prof *SchedProfile, g *GraphSpec, res *RunResult) {
 			}
 			t0 := c.Now()
 			e.settle()
-			if idle > time.Second {
-				c.Advance(time.Second)
+			if idle > 50*time.Millisecond {
+				c.Advance(50 * time.Millisecond)
 			}
 			idle += c.Now() - t0
 			continue
@@ -576,13 +582,13 @@ func (e *schedEngine) waitCancelReturn(want int) {
 	c := e.c
 	start := c.Now()
 	for e.cancelRet < want {
-		if c.Now()-start > liveBound {
-			c.Violate("C12", "cancel-no-return", "Cancel did not return within %s simulated (%d of %d calls returned)", liveBound, e.cancelRet, want)
+		if c.Now()-start > schedLiveBound {
+			c.Violate("C12", "cancel-no-return", "Cancel did not return within %s simulated (%d of %d calls returned)", schedLiveBound, e.cancelRet, want)
 			return
 		}
 		e.settle()
-		if c.Now()-start > time.Second {
-			c.Advance(time.Second)
+		if c.Now()-start > 50*time.Millisecond {
+			c.Advance(50 * time.Millisecond)
 		}
 	}
 }
